@@ -7,7 +7,7 @@ from ..affine import linear, NotAffine
 from ..tables import MISS
 from ..util import (repetition_count, dispatch_chain, decision_function, Undecidable, locals_from_attrs, is_name, calls_in, callee_qual, deref, ancestors, evaluator_calls, stmt_of, parent,
                     handler_outcomes, completes_normally, handler_covers, in_handler_of, raised_class, is_subclass,
-                    cls_name, fmt_witness)
+                    cls_name, fmt_witness, kwarg)
 from .common import option_usage
 from ..pattern import match, matches
 
@@ -186,7 +186,10 @@ def missing_tail(ctx):
     # the tail carries the value and the same factory
     a = t.args[1]
     kw = {k.arg: k.value for k in a.keywords}
-    ok = len(a.args) >= 2 and is_name(a.args[1], valv) and isinstance(kw.get('missing'), ast.Attribute) and kw['missing'].attr == 'missing'
+    carried = a.args[1] if len(a.args) >= 2 else None
+    if isinstance(carried, ast.Call) and callee_qual(p, u, carried) == 'core.Val' and len(carried.args) == 1:
+        carried = carried.args[0]         # handed on as a literal (C11.18)
+    ok = is_name(carried, valv) and isinstance(kw.get('missing'), ast.Attribute) and kw['missing'].attr == 'missing'
     ctx.ob(ok, u, 'the tail assigns the value with the same factory: %s' % norm(a))
     st = stmt_of(t)
     ctx.ob(isinstance(st, ast.Assign) and is_name(st.targets[0], valv), u, 'the filled factory object becomes the value to attach: %s' % norm(st))
@@ -455,3 +458,79 @@ def default_assign_handlers(ctx):
     ctx.ob(got.get('assign', {}).get('auto_func') == '_assign_autodiscover', 'glom/mutation.py', "the 'assign' op is registered with its discovery function: %s" % got.get('assign'))
     ctx.ob(got.get('delete', {}).get('auto_func') == '_delete_autodiscover', 'glom/mutation.py', "the 'delete' op is registered with its discovery function: %s" % got.get('delete'))
     ctx.floor(4)
+
+
+def _path_keys(cfg, node, e, depth=0):
+    """the path expressions ``e`` may stand for at ``node``, modulo re-rooting (``.from_t()``
+    changes the root, not the steps): source texts after resolving locals"""
+    if isinstance(e, ast.IfExp):
+        return _path_keys(cfg, node, e.body, depth) | _path_keys(cfg, node, e.orelse, depth)
+    if isinstance(e, ast.Call) and isinstance(e.func, ast.Attribute) and e.func.attr == 'from_t' and not e.args:
+        return _path_keys(cfg, node, e.func.value, depth)
+    if isinstance(e, ast.Name) and depth < 4:
+        out = set()
+        for dn, v in cfg.reaching_defs(node, e.id):
+            if isinstance(v, ast.AST):
+                out |= _path_keys(cfg, dn, v, depth + 1)
+            else:
+                out.add('<%s>' % e.id)
+        return out or {'<%s>' % e.id}
+    return {norm(e)}
+
+
+@rule('C11.16')
+def broadcast_counts_the_fetched_path(ctx):
+    """the destinations are fetched through one path and then broadcast over according to the
+    number of wildcards of a path: these must be the same path (up to re-rooting).  After a
+    missing= back-fill the destination is re-fetched through the existing *prefix*; broadcasting
+    that single container by the wildcard count of the full path iterates it as if it were a
+    list of matches"""
+    p = ctx.program
+    nonexc = lambda lab: lab != 'exc'
+    n = 0
+    for q in ('mutation.Assign.glomit', 'mutation.Delete.glomit'):
+        u = ctx.unit(q)
+        cfg = ctx.cfg(u)
+        calls = [c for c in calls_in(u) if callee_qual(p, u, c) == 'mutation._apply_for_each']
+        ctx.require(len(calls) == 1 and len(calls[0].args) == 3, '%s: broadcast call not found' % q)
+        c = calls[0]
+        cn = cfg.node_containing(c)
+        P, D = c.args[1], c.args[2]
+        ctx.require(is_name(P) and is_name(D), '%s: broadcast arguments are not plain locals' % q)
+        for dn, v in cfg.reaching_defs(cn, D.id):
+            n += 1
+            ok = isinstance(v, ast.Call) and p.is_evaluator_call(u, v) and len(v.args) >= 2
+            detail = 'the destination does not come from a fetch'
+            if ok:
+                fetched = _path_keys(cfg, dn, v.args[1])
+                # the broadcast path as it stands when the fetch is made, unchanged until the broadcast
+                redefs = [x for x in cfg.nodes if x is not dn and any(nm == P.id for nm, _ in cfg.defs_at(x))
+                          and cfg.find_path(dn, {x}, labels=nonexc) is not None and cfg.find_path(x, {cn}, labels=nonexc) is not None]
+                counted = _path_keys(cfg, dn, P)
+                ok = not redefs and fetched <= counted and counted <= fetched
+                detail = 'fetched through %s, wildcards counted on %s' % (sorted(fetched), sorted(counted))
+            ctx.ob(ok, u, 'the broadcast counts the wildcards of the path the destination was fetched through: %s' % norm(v)[:60],
+                   '' if ok else detail, node=c)
+    ctx.require(n >= 3, 'fetches feeding the broadcast not found (%d)' % n)
+    ctx.floor(3)
+
+
+@rule('C11.18')
+def backfill_value_is_not_evaluated_again(ctx):
+    """Assign evaluates its value once, against the target (arg_val).  The missing= back-fill hands
+    that *result* to a nested Assign spec, whose own evaluation would run arg_val on it again --
+    against the fresh container: a result that is itself spec-like (a T object, a Spec stored as
+    data) is replaced by something else.  The result is therefore passed as ``Val(result)``"""
+    p = ctx.program
+    u = ctx.unit('mutation.Assign.glomit')
+    roles = assign_roles(ctx, u)
+    valv = roles.get('val')
+    ctx.require(valv is not None, 'Assign.glomit: evaluated value not found')
+    inner = [c for c in calls_in(u) if callee_qual(p, u, c) == 'mutation.Assign']
+    ctx.require(len(inner) >= 1, 'Assign.glomit: nested Assign for the missing tail not found')
+    for c in inner:
+        a = c.args[1] if len(c.args) > 1 else kwarg(c, 'val')
+        ok = isinstance(a, ast.Call) and callee_qual(p, u, a) == 'core.Val' and len(a.args) == 1 and is_name(a.args[0], valv)
+        ctx.ob(ok, u, 'the already evaluated value is handed to the nested Assign as a literal: %s' % (norm(a) if a is not None else None),
+               '' if ok else 'the nested Assign evaluates %s a second time (against the new container)' % valv, node=c)
+    ctx.floor(1)
